@@ -342,7 +342,7 @@ theorem newOf_some {op : Op} {l : Option Located} {nw : New} (h : newOf op l = s
     simp only at h
     by_cases hv : validName loc.name = true
     · simp only [hv, Bool.not_true, Bool.false_eq_true, if_false] at h
-      by_cases hio : insideOwn op loc.name = true
+      by_cases hio : blocked op loc.name = true
       · simp [hio] at h
       · simp only [hio, Bool.false_eq_true, if_false] at h
         cases hm : metadata loc.name loc.exe with
@@ -363,7 +363,7 @@ theorem newOf_not_inside {op : Op} {l : Option Located} {nw : New} (h : newOf op
     simp only at h
     by_cases hv : validName loc.name = true
     · simp only [hv, Bool.not_true, Bool.false_eq_true, if_false] at h
-      by_cases hio : insideOwn op loc.name = true
+      by_cases hio : blocked op loc.name = true
       · simp [hio] at h
       · simp only [hio, Bool.false_eq_true, if_false] at h
         cases hm : metadata loc.name loc.exe with
@@ -371,7 +371,10 @@ theorem newOf_not_inside {op : Op} {l : Option Located} {nw : New} (h : newOf op
         | some v =>
           rw [hm] at h
           cases h
-          simpa using hio
+          have hb : blocked op loc.name = false := by simpa using hio
+          unfold blocked at hb
+          simp only [Bool.or_eq_false_iff] at hb
+          exact hb.1
     · simp [hv] at h
 
 theorem answer_new {op : Op} {nw : New} (h : specNew op = some nw) :
